@@ -451,6 +451,18 @@ func genModHex(g *hx.Gen, out *hx.Out) {
 			emit(oid + "=" + hx.Hex(v))
 		}
 	}
+	// a valid serial extension next to other extensions whose identifier is close to its own
+	// (siblings, parent, child, neighbouring arcs) and whose values are shorter than a serial's
+	good := oid + "=" + hx.Hex([]byte{2, 4, 0x01, 0x23, 0x45, 0x67})
+	for _, near := range []string{"1.3.6.1.4.1.41482.3.9", "1.3.6.1.4.1.41482.3.3", "1.3.6.1.4.1.41482.3.8", "1.3.6.1.4.1.41482.3.1", "1.3.6.1.4.1.41482.3.10",
+		"1.3.6.1.4.1.41482.3", "1.3.6.1.4.1.41482.3.7.1", "1.3.6.1.4.1.41482.2.7", "1.3.6.1.4.1.41482.4.7", "1.3.6.1.4.1.41483.3.7", "1.3.6.1.4.1.41482.3.71", "1.3.6.1.4.1.41482.3.17", "0.3.6.1.4.1.41482.3.7", "1.3.6.1.4.1.41482.3.0"} {
+		for _, l := range []int{0, 1, 2, 6} {
+			sib := near + "=" + hx.Hex(g.Bytes(l))
+			emit(sib + "," + good)
+			emit(good + "," + sib)
+			emit(sib) // and alone: not a serial extension at all
+		}
+	}
 	for i := 0; i < *hx.Count; i++ {
 		l := []int{5, 6, 5, 6, 5, 6, 2, 7}[g.Intn(8)]
 		v := append([]byte{2, byte(l - 2)}, g.Bytes(l-2)...)
